@@ -106,7 +106,7 @@ func (rn *runner) histRound(mode string, procs, gor, iters int, seed uint64) boo
 }
 
 func (rn *runner) histPhase() {
-	rounds, procs, gor, iters := 3, 4, 3, 70
+	rounds, procs, gor, iters := 4, 5, 3, 100
 	if rn.f.Tier != "quick" {
 		rounds, procs, gor, iters = 10, 6, 4, 300
 	}
